@@ -126,3 +126,23 @@ Theorem default_partitioner_cases rows ks t :
 Proof.
   repeat split; try reflexivity; intros H; unfold prepared_partitioner, table_meta_partitioner; rewrite H; reflexivity.
 Qed.
+
+(* ---- fetch modes ---- *)
+Theorem cdc_table_fetch_modes fm has_columns r1 r2 ks t name chunks :
+  (fm = FetchMinimal \/ (fm = FetchFull /\ has_columns = true)) ->
+  forallb (fun x => negb (row_is ks t x)) r2 = true -> ends_with name cdc_suffix = true ->
+  feed (session_partitioner fm (Some (r1 ++ ((ks, t), Some name) :: r2)%list) true has_columns (Some (ks, t))) chunks
+  = cdc_token_spec (List.concat chunks).
+Proof.
+  intros [->|[-> ->]] H He; cbn [session_partitioner]; apply cdc_table_last_row; assumption.
+Qed.
+
+Theorem murmur3_table_fetch_modes fm has_columns r1 r2 ks t name chunks :
+  (fm = FetchMinimal \/ (fm = FetchFull /\ has_columns = true)) ->
+  forallb (fun x => negb (row_is ks t x)) r2 = true -> ends_with name murmur3_suffix = true ->
+  (Z.of_nat (List.length (List.concat chunks)) < 2 ^ 63)%Z ->
+  feed (session_partitioner fm (Some (r1 ++ ((ks, t), Some name) :: r2)%list) true has_columns (Some (ks, t))) chunks
+  = murmur3_token_spec (List.concat chunks).
+Proof.
+  intros [->|[-> ->]] H He Hb; cbn [session_partitioner]; apply murmur3_table_last_row; assumption.
+Qed.
